@@ -178,6 +178,8 @@ def param_table(kind, n, m):
         return 0.35 + 0.25 * h - 0.2 * k + 0.15 * ((h * (k + 2)) % 3)
     if kind == "ones":          # the symmetric pulse of the repository's tests
         return np.ones((2 * n, m))
+    if kind == "int":           # whole-number parameters handed over as an integer array
+        return (1 + (h + 2 * k) % 3).astype(int)
     if kind == "constcol":      # a drive with constant detuning: the last column never changes, the others always do
         t = 0.35 + 0.25 * h - 0.2 * k + 0.15 * ((h * (k + 2)) % 3)
         t[:, m - 1] = 0.45
@@ -500,7 +502,7 @@ def build_cases(tier):
     # parameter tables with partial repetition between consecutive half steps (constant column, one column at a time,
     # equal half steps) -- the patterns of piecewise-constant controls
     for n, m, model, env, deriv, table in itertools.product([2, 3], [2, 3], ["H", "all"], ["anc1", "tempo1"], derivs,
-                                                            ["constcol", "staircase", "fullstep"]):
+                                                            ["constcol", "staircase", "fullstep", "int"]):
         add(2, n, m, model, env, "matrix", deriv, table, fam="tables")
     # process tensors whose last bond is closed by a non-trivial cap tensor
     for n, env, deriv in itertools.product([1, 2, 3], ["anc1x", "anc2x"], derivs):
